@@ -35,6 +35,9 @@ type c17Step struct {
 	W     *WOp `json:"w,omitempty"`
 	Mark  bool `json:"mark,omitempty"`  // a compaction at the current revision
 	Pause int  `json:"pause,omitempty"` // milliseconds to wait before the step
+	// Burst (backend level, with Mark): this many compactions back to back instead of one — more compaction marks
+	// inside one TTL window than an implementation may want to remember
+	Burst int `json:"burst,omitempty"`
 }
 
 type c17Case struct {
@@ -429,6 +432,12 @@ func genC17Backend(t *rapid.T) interface{} {
 		c.Steps = append(c.Steps, c17Step{W: &WOp{Kind: "update", K: rapid.IntRange(0, len(c.Keys)-1).Draw(t, "leasedKey"), V: 1, Exp: "ok",
 			Lease: rapid.SampledFrom([]int64{1, 1, 2}).Draw(t, "leaseSecs")}})
 	}
+	if DrawBool(t, 35, "burst") {
+		c.Steps = append(c.Steps, c17Step{Mark: true, Burst: rapid.SampledFrom([]int{17, 33, 8, 16, 70}).Draw(t, "nburst")})
+		// a change of an Event some time after the burst, compacted at once: it is younger than every mark of the burst
+		c.Steps = append(c.Steps, c17Step{Pause: rapid.SampledFrom([]int{600, 300, 1100}).Draw(t, "afterBurst"), W: &WOp{Kind: "update", K: DrawIntn(t, 2, "bkey"), V: 3, Exp: "ok"}})
+		c.Steps = append(c.Steps, c17Step{Mark: true})
+	}
 	n := rapid.IntRange(1, 4).Draw(t, "nsteps")
 	for i := 0; i < n; i++ {
 		s := c17Step{Pause: rapid.SampledFrom([]int{0, 300, 600, 1100}).Draw(t, "pause")}
@@ -599,6 +608,21 @@ func runC17Backend(ci interface{}, st *CaseStats) error {
 		if err := env.Settle(); err != nil {
 			return err
 		}
+		for b := 1; b < s.Burst; b++ {
+			// every compaction of the burst needs a revision of its own to be recorded: an ordinary key changes
+			if _, err := env.DoWrite(WOp{Kind: "update", K: len(c.Keys) - 1, V: 6, Exp: "ok"}); err != nil {
+				return fmt.Errorf("step %d (burst %d): %v", si, b, err)
+			}
+			if err := env.Settle(); err != nil {
+				return err
+			}
+			if _, err := env.B.Compact(ctx, 0); err != nil {
+				return fmt.Errorf("step %d: compact %d of a burst: %v", si, b, err)
+			}
+		}
+		if s.Burst > 0 {
+			st.Labelf("compaction-burst:%d", s.Burst)
+		}
 		if _, err := env.B.Compact(ctx, 0); err != nil {
 			return fmt.Errorf("step %d: compact: %v", si, err)
 		}
@@ -634,7 +658,7 @@ func runC17Backend(ci interface{}, st *CaseStats) error {
 
 var specC17Backend = &Spec{
 	ID:      "C17",
-	Rule:    "backend level: real Backend.Create/Update/Delete/Compact with the events TTL set to 2 s (hook; engines with native TTL get 1 s of granularity tolerance) on engines with native TTL (memkv, Badger) and without (memkv behind a no-TTL shim, TiKV mock); 2 Event keys, a look-alike and an ordinary key are created, then 1..4 writes on the Event keys and compactions with pauses of 0..2.3 s. Oracle as at scanner level (young Events fully present: reads, index record and newest version record; old ones fully present or gone; non-Events untouched; final update / re-create succeeds). Non-trivial = some Event expired and a younger one was verified intact; distinct = SHA-1 of the case",
+	Rule:    "backend level: real Backend.Create/Update/Delete/Compact with the events TTL set to 2 s (hook; engines with native TTL get 1 s of granularity tolerance) on engines with native TTL (memkv, Badger) and without (memkv behind a no-TTL shim, TiKV mock); 2 Event keys, a look-alike and an ordinary key are created, then (35%) a burst of 8..70 compactions back to back followed by a change of an Event, then 1..4 writes on the Event keys and compactions with pauses of 0..2.3 s. Oracle as at scanner level (young Events fully present: reads, index record and newest version record; old ones fully present or gone; non-Events untouched; final update / re-create succeeds). Non-trivial = some Event expired and a younger one was verified intact; distinct = SHA-1 of the case",
 	Gen:     genC17Backend,
 	New:     func() interface{} { return &c17Case{} },
 	Run:     runC17Backend,
